@@ -361,13 +361,18 @@ impl<E: Effect, R: CommandReceiver<E>, S: EventSender<E>> Worker<E, R, S> {
                     heap: all_heap_data,
                 })?;
             }
-            Action::Deliver { target, value } => {
+            Action::Deliver {
+                sender,
+                target,
+                value,
+            } => {
                 let (message, heap) = self
                     .executor
                     .extract_heap_data(&value)
                     .map_err(|e| EnvironmentError::HeapData(format!("{:?}", e)))?;
 
                 self.sender.send(Event::DeliverAction {
+                    sender,
                     target,
                     message,
                     heap,
